@@ -9,6 +9,7 @@ import (
 	"sort"
 	"strings"
 	"time"
+	wdog "verifharness/wd"
 
 	"verifharness/pipx"
 )
@@ -138,7 +139,7 @@ func cmdTermScript(args []string) error {
 			var runErr error
 			select {
 			case runErr = <-done:
-			case <-time.After(15 * time.Second):
+			case <-wdog.After(15 * time.Second):
 				fail("hang", fmt.Sprintf("%v strict=%v", script, k.strict), "the terminal did not finish the script within 15 s")
 				continue
 			}
